@@ -343,36 +343,19 @@ var startTime = time.Now()
 
 func bytesReader(b []byte) *bytes.Reader { return bytes.NewReader(b) }
 
-// exploreFlatten: development aid — runs the flatten child over generated bundles and prints what the Go-side clauses find.
+// exploreFlatten: development aid — runs the flatten stream over generated bundles and prints a histogram of findings.
 func exploreFlatten(seed uint64, n int) {
-	var cases []*Case
-	var ins []any
-	for i := 0; i < n; i++ {
-		for k, o := range optionSets {
-			g := NewGen(seed, 1<<32|uint64(i))
-			in := flattenCase(g, o, false, 3, 2, true)
-			cases = append(cases, &Case{ID: i*10 + k, Op: "flatten", In: in})
-			ins = append(ins, in)
-		}
-	}
-	outs := flattenBatch(20 * time.Second)(ins)
+	ctx := &Ctx{Prop: "", Tier: "quick", Seed: seed, Scale: 1}
+	st := *flattenStream
+	st.N = n
+	res := st.Run(ctx)
 	hist := map[string]int{}
-	shown := map[string]bool{}
-	for i, c := range cases {
-		c.Impl = outs[i]
-		fs := flattenFindings(c)
-		if len(fs) == 0 {
-			hist["ok"]++
-		}
-		for _, f := range fs {
-			hist[f.Signature]++
-			if !shown[f.Signature] {
-				shown[f.Signature] = true
-				fmt.Printf("--- %s\n    %s\n    bundle: %s\n", f.Signature, truncate(f.Detail, 400), truncate(string(mustJSON(get(c.In, "bundle"))), 1500))
-			}
-		}
+	for _, f := range res.Findings {
+		hist[f.Kind+" "+f.Signature]++
+		fmt.Printf("--- %s %s\n    %s\n    bundle: %s\n", f.Kind, f.Signature, truncate(f.Detail, 500), truncate(string(mustJSON(get(f.Case.In, "bundle"))), 1200))
 	}
-	for _, k := range sortedKeys(hist) {
-		fmt.Printf("%6d  %s\n", hist[k], k)
+	for _, k := range sortedKeys(res.Features) {
+		fmt.Printf("%6d  %s\n", res.Features[k], k)
 	}
+	fmt.Println("evaluations", res.Evaluations, "findings", len(res.Findings))
 }
